@@ -151,7 +151,7 @@ class Run:
         if self.notes:
             self.cov["notes"] = self.notes[:50]
         # replays
-        rdir = os.path.join(VERIF, "replays")
+        rdir = os.environ.get("VERIF_REPLAY_DIR") or os.path.join(VERIF, "replays")
         os.makedirs(rdir, exist_ok=True)
         seen = set()
         reported = 0
@@ -181,7 +181,7 @@ class Run:
             "wall_s": round(wall, 2),
             "violations": len(seen),
         }
-        edir = os.path.join(VERIF, "evidence")
+        edir = os.environ.get("VERIF_EVIDENCE_DIR") or os.path.join(VERIF, "evidence")
         os.makedirs(edir, exist_ok=True)
         with open(os.path.join(edir, f"{self.pid}.json"), "w") as f:
             json.dump(ev, f, indent=1, sort_keys=True)
